@@ -8,6 +8,7 @@ import NeoFS.Driver.Gov
 import NeoFS.Driver.Meta
 import NeoFS.Driver.Dump
 import NeoFS.Driver.WC
+import NeoFS.Driver.EList
 open NeoFS NeoFS.Driver
 
 /-- State of all stateful models; pure models need none. -/
@@ -15,6 +16,7 @@ structure DState where
   timers : NeoFS.Timers.ET := NeoFS.Timers.new []
   metaSt : NeoFS.Driver.MetaState := {}
   wc : NeoFS.WC.St := { maxSize := 6000 }
+  elist : NeoFS.Driver.EListState := {}
 
 def stepLine (s : DState) (line : String) : DState × String :=
   let o := parseOp line
@@ -28,6 +30,7 @@ def stepLine (s : DState) (line : String) : DState × String :=
   | "gov" => (s, govStep o)
   | "dump" => (s, dumpStep o)
   | "wc" => let (w, out) := wcStep s.wc o; ({ s with wc := w }, out)
+  | "elist" => let (e, out) := elistStep s.elist o; ({ s with elist := e }, out)
   | "meta" => let (m, out) := metaStep s.metaSt o; ({ s with metaSt := m }, out)
   | "timers" => let (t, out) := timersStep s.timers o; ({ s with timers := t }, out)
   | _ => (s, "=> bad-op")
